@@ -172,11 +172,30 @@ theorem writeFailed_inv (c : WCfg) (scale : Int → Int) (s : SW) (r : WRec) (h 
   | none => exact h
   | some cl => exact (ready_inv c s cl r.infoBytes h).1
 
+/-- the state a segmented Write ends in is that of two Writes in a row, or of a failed Write -/
+theorem writeSeg_state (c : WCfg) (scale : Int → Int) (s : SW) (r n : WRec) :
+    (writeSeg c scale s r n).1 = (write c scale s r).1 ∨
+    (writeSeg c scale s r n).1 = (writeFailed c scale s r).1 ∨
+    (writeSeg c scale s r n).1 = (write c scale (write c scale s r).1 n).1 := by
+  unfold writeSeg
+  split
+  · exact Or.inl rfl
+  · split
+    · exact Or.inr (Or.inl rfl)
+    · exact Or.inr (Or.inr rfl)
+
+theorem writeSeg_inv (c : WCfg) (scale : Int → Int) (s : SW) (r n : WRec) (h : Inv s) : Inv (writeSeg c scale s r n).1 := by
+  rcases writeSeg_state c scale s r n with e | e | e <;> rw [e]
+  · exact write_inv c scale s r h
+  · exact writeFailed_inv c scale s r h
+  · exact write_inv c scale _ n (write_inv c scale s r h)
+
 theorem step_inv (c : WCfg) (scale : Int → Int) (s : SW) (op : WOp) (h : Inv s) : Inv (step c scale s op).1 := by
   cases op with
   | write r => exact write_inv c scale s r h
   | rotate => exact close_inv s h
   | failed r => exact writeFailed_inv c scale s r h
+  | seg r n => exact writeSeg_inv c scale s r n h
 
 /-- **the invariant holds in every reachable state**: in particular the tracked size is the length of the open file -/
 theorem C04_inv (c : WCfg) (scale : Int → Int) (ops : List WOp) : Inv (run c scale SW.init ops).1 := by
@@ -213,55 +232,69 @@ theorem at_modFile (fs : List WFile) (id0 : Nat) (m : Member) (f : WFile) (hf : 
     rw [mem_modFile]; exact ⟨f, hf, by simp [hid]⟩
 
 /-- files only ever grow at the end -/
-theorem step_grows (c : WCfg) (scale : Int → Int) (s : SW) (op : WOp) (f : WFile) (hf : f ∈ s.files) :
-    ∃ f' ∈ (step c scale s op).1.files, f'.id = f.id ∧ ∃ post, f'.content = f.content ++ post := by
-  have hclose : ∀ s : SW, ∀ f ∈ s.files, ∃ f' ∈ (close s).files, f'.id = f.id ∧ ∃ post, f'.content = f.content ++ post := by
-    intro s f hf
-    unfold close
-    cases hc : s.cur with
-    | none => exact ⟨f, hf, rfl, [], by simp⟩
-    | some id =>
-      simp only
-      by_cases hid : (f.id == id) = true
-      · exact ⟨{ f with isOpen := false }, by rw [mem_modFile]; exact ⟨f, hf, by simp [hid]⟩, rfl, [], by simp [WFile.content]⟩
-      · exact ⟨f, by rw [mem_modFile]; exact ⟨f, hf, by simp [hid]⟩, rfl, [], by simp⟩
+theorem close_grows (s : SW) (f : WFile) (hf : f ∈ s.files) :
+    ∃ f' ∈ (close s).files, f'.id = f.id ∧ ∃ post, f'.content = f.content ++ post := by
+  unfold close
+  cases hc : s.cur with
+  | none => exact ⟨f, hf, rfl, [], by simp⟩
+  | some id =>
+    simp only
+    by_cases hid : (f.id == id) = true
+    · exact ⟨{ f with isOpen := false }, by rw [mem_modFile]; exact ⟨f, hf, by simp [hid]⟩, rfl, [], by simp [WFile.content]⟩
+    · exact ⟨f, by rw [mem_modFile]; exact ⟨f, hf, by simp [hid]⟩, rfl, [], by simp⟩
+
+theorem ready_grows (c : WCfg) (s : SW) (cl : Bool) (ib : Nat → Bytes) (f : WFile) (hf : f ∈ s.files) :
+    ∃ f' ∈ (ready c s cl ib).files, f'.id = f.id ∧ ∃ post, f'.content = f.content ++ post := by
   have hcreate : ∀ s : SW, ∀ ib, ∀ f ∈ s.files, f ∈ (createFile c s ib).files := by
     intro s ib f hf; unfold createFile; split <;> simp [hf]
-  have hready : ∀ cl ib, ∃ f' ∈ (ready c s cl ib).files, f'.id = f.id ∧ ∃ post, f'.content = f.content ++ post := by
-    intro cl ib
-    unfold ready
-    have h1 : ∃ f' ∈ (if cl then close s else s).files, f'.id = f.id ∧ ∃ post, f'.content = f.content ++ post := by
-      split
-      · exact hclose s f hf
-      · exact ⟨f, hf, rfl, [], by simp⟩
-    generalize (if cl then close s else s) = s1 at h1
-    obtain ⟨f1, hf1, hid1, post1, hp1⟩ := h1
-    simp only
+  unfold ready
+  have h1 : ∃ f' ∈ (if cl then close s else s).files, f'.id = f.id ∧ ∃ post, f'.content = f.content ++ post := by
     split
-    · exact ⟨f1, hcreate s1 ib f1 hf1, hid1, post1, hp1⟩
-    · exact ⟨f1, hf1, hid1, post1, hp1⟩
-  cases op with
-  | rotate => exact hclose s f hf
-  | failed r =>
-    show ∃ f' ∈ (writeFailed c scale s r).1.files, _
-    rw [writeFailed_eq]
-    cases fitClose c scale s r.decl with
-    | none => exact ⟨f, hf, rfl, [], by simp⟩
-    | some cl => exact hready cl r.infoBytes
-  | write r =>
-    show ∃ f' ∈ (write c scale s r).1.files, _
-    rw [write_eq]
-    cases fitClose c scale s r.decl with
-    | none => exact ⟨f, hf, rfl, [], by simp⟩
-    | some cl =>
+    · exact close_grows s f hf
+    · exact ⟨f, hf, rfl, [], by simp⟩
+  generalize (if cl then close s else s) = s1 at h1
+  obtain ⟨f1, hf1, hid1, post1, hp1⟩ := h1
+  simp only
+  split
+  · exact ⟨f1, hcreate s1 ib f1 hf1, hid1, post1, hp1⟩
+  · exact ⟨f1, hf1, hid1, post1, hp1⟩
+
+theorem failed_grows (c : WCfg) (scale : Int → Int) (s : SW) (r : WRec) (f : WFile) (hf : f ∈ s.files) :
+    ∃ f' ∈ (writeFailed c scale s r).1.files, f'.id = f.id ∧ ∃ post, f'.content = f.content ++ post := by
+  rw [writeFailed_eq]
+  cases fitClose c scale s r.decl with
+  | none => exact ⟨f, hf, rfl, [], by simp⟩
+  | some cl => exact ready_grows c s cl r.infoBytes f hf
+
+theorem write_grows (c : WCfg) (scale : Int → Int) (s : SW) (r : WRec) (f : WFile) (hf : f ∈ s.files) :
+    ∃ f' ∈ (write c scale s r).1.files, f'.id = f.id ∧ ∃ post, f'.content = f.content ++ post := by
+  rw [write_eq]
+  cases fitClose c scale s r.decl with
+  | none => exact ⟨f, hf, rfl, [], by simp⟩
+  | some cl =>
+    simp only
+    obtain ⟨f1, hf1, hid1, post1, hp1⟩ := ready_grows c s cl r.infoBytes f hf
+    cases hcur : (ready c s cl r.infoBytes).cur with
+    | none => exact ⟨f1, hf1, hid1, post1, hp1⟩
+    | some id =>
       simp only
-      obtain ⟨f1, hf1, hid1, post1, hp1⟩ := hready cl r.infoBytes
-      cases hcur : (ready c s cl r.infoBytes).cur with
-      | none => exact ⟨f1, hf1, hid1, post1, hp1⟩
-      | some id =>
-        simp only
-        obtain ⟨f2, hf2, hid2, post2, hp2⟩ := at_modFile _ id ⟨r.tok, r.enc (ready c s cl r.infoBytes).infoOf, (ready c s cl r.infoBytes).infoOf⟩ f1 hf1
-        exact ⟨f2, hf2, by rw [hid2, hid1], post1 ++ post2, by rw [hp2, hp1, List.append_assoc]⟩
+      obtain ⟨f2, hf2, hid2, post2, hp2⟩ := at_modFile _ id ⟨r.tok, r.enc (ready c s cl r.infoBytes).infoOf, (ready c s cl r.infoBytes).infoOf⟩ f1 hf1
+      exact ⟨f2, hf2, by rw [hid2, hid1], post1 ++ post2, by rw [hp2, hp1, List.append_assoc]⟩
+
+theorem step_grows (c : WCfg) (scale : Int → Int) (s : SW) (op : WOp) (f : WFile) (hf : f ∈ s.files) :
+    ∃ f' ∈ (step c scale s op).1.files, f'.id = f.id ∧ ∃ post, f'.content = f.content ++ post := by
+  cases op with
+  | rotate => exact close_grows s f hf
+  | failed r => exact failed_grows c scale s r f hf
+  | write r => exact write_grows c scale s r f hf
+  | seg r n =>
+    show ∃ f' ∈ (writeSeg c scale s r n).1.files, _
+    rcases writeSeg_state c scale s r n with e | e | e <;> rw [e]
+    · exact write_grows c scale s r f hf
+    · exact failed_grows c scale s r f hf
+    · obtain ⟨f1, hf1, hid1, post1, hp1⟩ := write_grows c scale s r f hf
+      obtain ⟨f2, hf2, hid2, post2, hp2⟩ := write_grows c scale (write c scale s r).1 n f1 hf1
+      exact ⟨f2, hf2, by rw [hid2, hid1], post1 ++ post2, by rw [hp2, hp1, List.append_assoc]⟩
 
 theorem at_step (c : WCfg) (scale : Int → Int) (s : SW) (op : WOp) (id off : Nat) (b : Bytes) (h : At s id off b) :
     At (step c scale s op).1 id off b := by
@@ -311,6 +344,35 @@ theorem C04_offset_stable (c : WCfg) (scale : Int → Int) (s : SW) (r : WRec) (
       At (run c scale (write c scale s r).1 later).1 id (write c scale s r).2.off (r.enc stamp) := by
   obtain ⟨id, stamp, hf, _, hat⟩ := C04_offset c scale s r h hok
   exact ⟨id, stamp, hf, at_run c scale later _ id _ _ hat⟩
+
+/-- **a segmented record is reported where its first segment starts**: when the marshaler splits a record, the single
+    response names the file and offset at which the FIRST segment (the record carrying the id the caller wrote) lies —
+    not the continuation — the byte count is the sum of both serialized lengths, and the position stays valid through
+    the nested write of the continuation (which may rotate) and everything written later -/
+theorem C04_seg_offset (c : WCfg) (scale : Int → Int) (s : SW) (r n : WRec) (later : List WOp) (h : Inv s)
+    (hok : (writeSeg c scale s r n).2.err = false) :
+    ∃ id stamp stamp2, (writeSeg c scale s r n).2.file = some id ∧
+      (writeSeg c scale s r n).2.written = r.ulen stamp + n.ulen stamp2 ∧
+      At (run c scale (writeSeg c scale s r n).1 later).1 id (writeSeg c scale s r n).2.off (r.enc stamp) := by
+  unfold writeSeg at hok ⊢
+  by_cases h1 : (write c scale s r).2.err = true
+  · simp only [h1, ↓reduceIte] at hok; cases hok
+  · have h1' : (write c scale s r).2.err = false := by simpa using h1
+    simp only [h1', Bool.false_eq_true, ↓reduceIte] at hok ⊢
+    cases hfit : fitClose c scale (write c scale s r).1 n.decl with
+    | none =>
+      simp only [hfit] at hok
+      have : (writeFailed c scale s r).2.err = true := by
+        rw [writeFailed_eq]; cases fitClose c scale s r.decl <;> rfl
+      rw [this] at hok; cases hok
+    | some cl =>
+      simp only [hfit] at hok ⊢
+      obtain ⟨id, stamp, hf, hw, hat⟩ := C04_offset c scale s r h h1'
+      obtain ⟨id2, stamp2, _, hw2, _⟩ := C04_offset c scale (write c scale s r).1 n (write_inv c scale s r h) hok
+      refine ⟨id, stamp, stamp2, hf, by rw [hw, hw2], ?_⟩
+      have hat2 : At (write c scale (write c scale s r).1 n).1 id (write c scale s r).2.off (r.enc stamp) :=
+        at_step c scale (write c scale s r).1 (.write n) id _ _ hat
+      exact at_run c scale later _ id _ _ hat2
 
 /-! ### sequential reading of a file of members -/
 
